@@ -907,7 +907,9 @@ func (r *Runtime) typedArrayProto_map(call FunctionCall) Value {
 				fc.Arguments[0] = _undefined
 			}
 			fc.Arguments[1] = intToValue(int64(i))
-			dst.typedArray.set(dst.offset+i, callbackFn(fc))
+			// TypedArraySetElement: convert, then validate the index (the callback or the conversion may have
+			// detached the target), then write
+			dst._putIdx(i, callbackFn(fc))
 		}
 		return dst.val
 	}
@@ -1332,7 +1334,8 @@ func (r *Runtime) typedArray_from(call FunctionCall) Value {
 		ta := r.typedArrayCreate(c, intToValue(int64(len(values))))
 		if mapFc == nil {
 			for idx, val := range values {
-				ta.typedArray.set(idx, val)
+				// index relative to the view; the conversion may detach the buffer
+				ta._putIdx(idx, val)
 			}
 		} else {
 			fc := FunctionCall{
@@ -1351,7 +1354,7 @@ func (r *Runtime) typedArray_from(call FunctionCall) Value {
 	ta := r.typedArrayCreate(c, intToValue(int64(length)))
 	if mapFc == nil {
 		for i := 0; i < length; i++ {
-			ta.typedArray.set(i, nilSafe(source.self.getIdx(valueInt(i), nil)))
+			ta._putIdx(i, nilSafe(source.self.getIdx(valueInt(i), nil)))
 		}
 	} else {
 		fc := FunctionCall{
@@ -1361,7 +1364,7 @@ func (r *Runtime) typedArray_from(call FunctionCall) Value {
 		for i := 0; i < length; i++ {
 			idx := valueInt(i)
 			fc.Arguments[0], fc.Arguments[1] = source.self.getIdx(idx, nil), idx
-			ta.typedArray.set(i, mapFc(fc))
+			ta._putIdx(i, mapFc(fc))
 		}
 	}
 	return ta.val
@@ -1370,7 +1373,8 @@ func (r *Runtime) typedArray_from(call FunctionCall) Value {
 func (r *Runtime) typedArray_of(call FunctionCall) Value {
 	ta := r.typedArrayCreate(r.toObject(call.This), intToValue(int64(len(call.Arguments))))
 	for i, val := range call.Arguments {
-		ta.typedArray.set(i, val)
+		// the constructor may have returned a view with a byte offset, and the conversion may detach its buffer
+		ta._putIdx(i, val)
 	}
 	return ta.val
 }
